@@ -6,6 +6,7 @@ Mutant = 0
 Small = 1
 Encs = {"gzip"}
 Servers = {TRUE}
+HaveDecs = {TRUE}
 INIT Init
 NEXT Next
 INVARIANT I_Ref
